@@ -11,7 +11,7 @@ META = {
     "text": "IDs.tla defines abstract IDs (type, namespace rank, value class) with the lexicographic Less; TLC checks the strict "
             "total order axioms and the agreement with the compact sort key on all triples of a small set, and the token-level "
             "design of the textual forms (alias table unambiguous, namespace recoverable).  For the Go code the claim is "
-            "exploration: every ID class TLC enumerates (6 types x 14 namespaces incl. ones with many '/', upper case, digits, "
+            "exploration: every ID class TLC enumerates (6 types x 16 namespaces incl. ones with many '/', upper case, digits, "
             "non-ASCII letters, characters the shell cannot lex, every alias namespace x 8 value classes incl. bit 63 and max), "
             "every postcode / ONS shape and every alias prefix is concretised (order preserving) and round-tripped through "
             "String, JSON, YAML, protobuf (message and wire), shell tokens with and without abbreviation, the shell parser and "
@@ -83,7 +83,7 @@ def run(ctx):
     ctx.extra_cov["selftest_corrupted_cases_rejected"] = len(pv)
     return ctx.finish(
         "exploration",
-        rule="TLC enumerates all 672 ID classes (6 types x 14 namespaces x 8 value classes), 15 postcode shapes, 36 ONS shapes, "
+        rule="TLC enumerates all 672 ID classes (6 types x 16 namespaces x 8 value classes), 15 postcode shapes, 36 ONS shapes, "
              "the 7 aliases and an order sample of %d abstract IDs with the full Less matrix, and checks the order axioms + "
              "compact-key agreement on all triples of a small set and the token-level text round trip for every class; each "
              "class is one case executed with %d concretisations through every encoding in its domain; the order case compares "
